@@ -795,7 +795,14 @@ def c20(prop, tier, seed, wd, explore, limit, kinds, we):
     cases = spread("repair", "asan", seed, 16, 150 if tier == "quick" else 1500, big)
     dc = P.basic_cases(prop, seed, tier, ops=("locate", "extract"), kinds=["RPDAC", "RPFC", "RPHTFC", "HASHRPF", "HASHRPDAC"], per_input_states=1, families=["repetitive", "copies", "near", "norepeat", "chain", "uniform2", "len1", "last_single", "urls"],
                        n_random=27 if tier == "quick" else 250)
-    rule = ("Re-Pair on integer sequences of 9 shapes (no repeated pair, one string, runs, abab, Fibonacci words, copies, near-identical strings, random over 2 / 254 symbols): the caller's array is walked the way the dictionaries' "
+    # thousands of short strings over three letters: the compressor's per-frequency pair arrays grow past their first capacity and shrink again
+    for v in range(2 if tier == "quick" else 10):
+        r = P.rng_for(seed, prop, 660000 + v)
+        S = gen.fam_uniform(r, 1600 + 700 * v, "a3", 3, 9)
+        for kind in ["RPDAC", "RPFC", "HASHRPF", "HASHRPDAC", "RPHTFC"]:
+            pp = P.param_vectors(kind, r, S, 1)[0]
+            dc.append(Case(kind, pp, "uniform3:%d" % len(S), S, r.choice(["own", "fresh"]), 1, ("locate", "extract"), seed=gen.splitmix(seed, v, 41), cpu=300))
+    rule = ("Re-Pair on integer sequences of 10 shapes (no repeated pair, one string, runs, abab, Fibonacci words, copies, near-identical strings, random over 2 / 254 symbols, thousands of short strings over 3-4 letters): the caller's array is walked the way the dictionaries' "
             "compaction loops do and expanded symbol for symbol against the original; no rule side is 0 or beyond terminals+rules; getBits suffices; expandRule agrees; save/loadNoSeq reproduces the rule table; "
             "plus the five Re-Pair based dictionary kinds on the same kinds of text against the model; a case is one comp_driver process or one dictionary case")
     def dnt(case, cnt):
